@@ -130,6 +130,9 @@ def outside_guarantee(i, template, placement, opts):
 
 
 def type_hist(m, hist):
+    if m.get("corpus"):
+        hist["corpus-module"] = hist.get("corpus-module", 0) + 1
+        return
     def f(t):
         k = t["k"]
         if k in ("named", "alias"):
@@ -483,21 +486,39 @@ def gen_module(rng, k):
     return g.module(method_names=method_names)
 
 
+SHAPES = ["ShapesPlain", "ShapesVariadic1", "ShapesVariadic0", "ShapesVariadic2", "ShapesAllocated", "ShapesGeneric", "ShapesConstraint",
+          "ShapesEmbedded", "ShapesEmpty"]
+
+
+def corpus_module():
+    """corpus/C01/shapes.go as a module: every branch of both templates (variadic x unroll x 0/1/2 results, interface{}
+    variadics, nillable parameters, generic interfaces, embedded interfaces, an empty interface)."""
+    f = CORPUS / "shapes.go"
+    if not f.exists():
+        return None
+    e = gen_pkgs.EXT[0]
+    files = {"ext/http/types.go": gen_pkgs.ext_source(e), "src/src.go": f.read_text()}
+    return {"files": files, "ifaces": [], "static_names": SHAPES, "ext": [e], "std": gen_pkgs.STD, "mod": gen_pkgs.MOD,
+            "src": {"path": gen_pkgs.MOD + "/src", "name": "src"}, "corpus": True}
+
+
 def make_configs(rng, modules, thorough):
     cfgs = []
     for k, m in enumerate(modules):
         combos = [(t, f, p) for t in TEMPLATES for f in FORMATTERS for p in PLACEMENTS]
         for j, (t, f, p) in enumerate(combos):
             optlist = TESTIFY_OPTS if t == "testify" else MATRYER_OPTS
-            variants = optlist if thorough else [optlist[(k * 7 + j) % len(optlist)]]
+            variants = [optlist[(k * 7 + j) % len(optlist)]]
+            if m.get("corpus"):                         # the corpus sees every option set (quick: three per combination)
+                variants = optlist if thorough else [optlist[(j + d) % len(optlist)] for d in range(3)]
             for o in variants:
-                cfgs.append({"module": m, "template": t, "formatter": f, "placement": p, "opts": dict(o),
+                cfgs.append({"module": m, "files": m.get("files"), "template": t, "formatter": f, "placement": p, "opts": dict(o),
                              "filename": "mocks_test.go" if (k + j) % 2 == 0 else "mocks.go",
                              "src_name": m["src"]["name"], "src_path": m["src"]["path"], "pkgnames": pkgnames_of(m), "stream": "main"})
     for n, c in enumerate(cfgs):
         c["id"] = n
-        ifaces = c["module"]["ifaces"] + STATIC_IFACES
-        c["candidates"], c["outside"] = [], {}
+        ifaces = c["module"]["ifaces"] + (STATIC_IFACES if not c["module"].get("corpus") else [])
+        c["candidates"], c["outside"] = list(c["module"].get("static_names", [])), {}
         for i in ifaces:
             why = outside_guarantee(i, c["template"], c["placement"], c["opts"])
             if why:
@@ -665,9 +686,12 @@ def check(ctx, only=None):
     if only is not None:
         cfgs = only
     else:
-        nmod = int(os.environ.get("C01_MODULES", "40" if thorough else "6"))
+        nmod = int(os.environ.get("C01_MODULES", "60" if thorough else "6"))
         modules = [gen_module(ctx.rng, k) for k in range(nmod)]
-        cfgs = make_configs(ctx.rng, modules, thorough and nmod <= 12)
+        cm = corpus_module()
+        if cm:
+            modules.insert(0, cm)
+        cfgs = make_configs(ctx.rng, modules, thorough)
         if envflag("C01_GOMOD_SPELLINGS"):           # owned by C09 (DESIGN row 3); off by default
             for k, c in enumerate(cfgs):
                 if c["placement"] == "inpkg" and k % 4 == 0:
@@ -757,7 +781,7 @@ def check(ctx, only=None):
 
     # ---------------- evidence
     hist = {"template": {}, "formatter": {}, "placement": {}, "option": {}, "filename": {}, "excluded_by_guard": {}, "outside_guarantee": {},
-            "stage": {}, "types": {}}
+            "stage": {}, "types": {}, "method_shape": {}}
     seen_mod = set()
     n_ifaces = n_methods = 0
     for c, r in main:
@@ -777,6 +801,13 @@ def check(ctx, only=None):
             seen_mod.add(id(c["module"])); type_hist(c["module"], hist["types"])
         if r.get("probe"):
             n_ifaces += len(r["probe"]["ifaces"]); n_methods += sum(len(i["methods"]) for i in r["probe"]["ifaces"])
+            for i in r["probe"]["ifaces"]:
+                for mm in i["methods"]:
+                    var = bool(mm["params"]) and mm["params"][-1]["variadic"]
+                    key = "%s variadic=%s results=%s%s%s" % (c["template"], var, min(len(mm["results"]), 2),
+                                                           " unroll=%s" % (c["opts"].get("unroll-variadic") is True) if c["template"] == "testify" and var else "",
+                                                           " generic" if i["tparams"] else "")
+                    hist["method_shape"][key] = hist["method_shape"].get(key, 0) + 1
     distinct = len({json.dumps([c["template"], c["formatter"], c["placement"], c["opts"], r.get("names"), sorted(sources_of(c).items())], sort_keys=True, default=str)
                     for c, r in done if sum(len(i["methods"]) for i in r["probe"]["ifaces"]) > 0})
     gate = dict(gate)
